@@ -294,10 +294,15 @@ def check_fail(c):
     return bad if bad is not None else outcome(True, "placeholder-correct", nontrivial=True)
 
 
+LABELS = {"range": None, "descending": lambda n: list(range(n - 1, -1, -1)), "shuffled": lambda n: [3, 0, 4, 1, 2][:n] if n >= 3 else [1, 0][:n],
+          "strings": lambda n: ["q", "a", "z", "c", "b"][:n]}
+
+
 def check_par(c):
     import multiprocessing
 
-    df = make_df(table(c["table"], c["rows"]))
+    lab = LABELS[c.get("labels", "range")]
+    df = make_df(table(c["table"], c["rows"]), labels=lab(c["rows"]) if lab else None)
     txt = f"{c}"
     kind = c["kind"]
     old = multiprocessing.cpu_count
@@ -434,6 +439,12 @@ def generate(tier):
             models = ("ia",) if tier == "quick" else ("ma", "derived", "ia")
             for model in models:
                 cases.append({"family": "par", "kind": kind, "workers": w, "rows": min(rows, 5), "model": model, "table": "both"})
+    # row labels that are not ascending (a sorted / sampled / filtered scan table)
+    for kind, labels in it.product(par_kinds, ("descending", "shuffled", "strings")):
+        if kind == "mc.scan_steady_state" and labels == "strings":
+            continue
+        for w in (2, 16):
+            cases.append({"family": "par", "kind": kind, "workers": w, "rows": 3, "model": "ia", "table": "both", "labels": labels})
     for kind in ("time_course", "steady_state"):
         for delays in it.permutations((0.0, 0.25, 0.5)):
             cases.append({"family": "order", "kind": kind, "model": "ia", "delays": list(delays)})
